@@ -55,7 +55,7 @@ class ExternalLoop:
         self.readers = [(sock, callback)]
 
     def timeout(self, seconds, callback, *args):
-        self.timers.append((self.w.now + seconds, callback, args))
+        self.timers.append((self.w.now + seconds, callback, args, seconds, False))
 
     def signal(self, sig, callback):
         pass
@@ -70,20 +70,22 @@ class ExternalLoop:
         """Run until there is nothing left to wait for."""
         while not self.aborted:
             self.readers = [(s, cb) for s, cb in self.readers if not s.closed]
-            if not self.readers and not self.timers:
-                return
+            if not self.readers and all(t[4] for t in self.timers):
+                return          # nothing left but periodic timers that re-arm themselves (rel would sit there until abort())
             def ready():
-                return any(s.readable() for s, _ in self.readers) or any(d <= self.w.now + 1e-12 for d, _, _ in self.timers)
-            deadline = min([d for d, _, _ in self.timers], default=None)
+                return (any(s.readable() or s.closed for s, _ in self.readers) or any(t[0] <= self.w.now + 1e-12 for t in self.timers)
+                        or self.aborted)
+            deadline = min([t[0] for t in self.timers], default=None)
             if not ready():
                 self.w.block(ready, deadline, wake_times=lambda: [t for s, _ in self.readers for t in s.arrival_times()],
                              desc="external-loop")
             due = [t for t in self.timers if t[0] <= self.w.now + 1e-12]
             for t in due:
                 self.timers.remove(t)
-                keep = t[1](*t[2])
-                if keep and False:
-                    pass
+                # rel / pyevent rule: a timer is re-armed with the same delay for as long as its callback returns a true value;
+                # an exception of the callback comes out of dispatch()
+                if t[1](*t[2]):
+                    self.timers.append((self.w.now + t[3], t[1], t[2], t[3], True))
             for s, cb in list(self.readers):
                 if s.readable() and not s.closed:
                     if not cb():
@@ -173,6 +175,25 @@ def run_app(sc):
                 app.close()
             if mode == "kbd":
                 raise KeyboardInterrupt()
+        # the documented callbacks are "callable objects": plain functions, partial objects, instances with __call__, bound methods
+        form = sc.get("callback_form", "function")
+        if form == "partial":
+            import functools
+            return functools.partial(lambda tag, app, *args: cb(app, *args), name)
+        if form == "object":
+            class Handler:
+                __slots__ = ()
+
+                def __call__(self, app, *args):
+                    return cb(app, *args)
+            return Handler()
+        if form == "method":
+            class Owner:
+                def handle(self, app, *args):
+                    return cb(app, *args)
+            owner = Owner()
+            kept.append(owner)
+            return owner.handle
         return cb
 
     result = {"returns": [], "exceptions": []}
@@ -216,7 +237,14 @@ def run_app(sc):
                             args["dispatcher"] = ext
                         r = app.run_forever(**args)
                         if ext is not None:
-                            ext.dispatch(app)
+                            try:
+                                ext.dispatch(app)
+                            except Exception:
+                                # an exception of a timer callback (the ping/pong timeout under an external dispatcher) comes out of
+                                # the caller's own loop; the caller then cleans up
+                                trace.append([round(w.now, 6), "dispatch-raised"])
+                                app.close()
+                                raise
                             r = app.has_errored
                         result["returns"].append(r)
                     except BaseException as e:   # noqa
